@@ -866,6 +866,14 @@ func (e *Eval) loopEnv(fr *Frame, ls *loopState, s *State, from *ssa.BasicBlock,
 // bindCells exposes un-lifted local variables (Alloc cells) by source name.
 func (e *Eval) bindCells(env *Env, fr *Frame) {
 	for v, val := range fr.vals {
+		// local struct variables: the name denotes the object (auto-dereferenced)
+		if a, ok := v.(*ssa.Alloc); ok && a.Comment != "" && val.A == nil && val.T != "" {
+			if pt, ok := a.Type().(*types.Pointer); ok && isStruct(pt.Elem()) {
+				if _, dup := env.vars[a.Comment]; !dup {
+					env.vars[a.Comment] = TV{T: val.T, Ty: a.Type()}
+				}
+			}
+		}
 		if a, ok := v.(*ssa.Alloc); ok && a.Comment != "" && val.A != nil && val.A.Kind == "cell" {
 			if _, dup := env.vars[a.Comment]; dup {
 				continue
